@@ -11,7 +11,7 @@ THEOREMS = ["Ymq.C11." + t for t in (
     "verify_sound combine_valid combine_undivisible unpack_pack normFactors_prod unpack_pack_verify "
     "pack_one_becomes_two add_inv history_inv cycles_valid try_factor_proper even_combination_square "
     "kernel_step_proper verify_false_negative doubles_disjoint_add doubles_disjoint pack_total add_no_panic "
-    "add_inv2 history_no_panic walk_root_max").split()]
+    "add_inv2 history_no_panic walk_root_max final_step_proper").split()]
 PROFILES = ["release", "chk"]
 TIMEOUT = 60.0
 RULE = ("synthetic histories for the real RelationSet: n = p1*p2 (16..31-bit primes known to the generator, square roots "
@@ -418,8 +418,8 @@ def corpus_case(line):
 
 def cases(tier, rng, extended=False):
     quick = tier == "quick"
-    nh = 320 if quick else 10000
-    nops = 1600 if quick else 40000
+    nh = 640 if quick else 10000
+    nops = 3200 if quick else 40000
     if extended:
         nh *= 4
         nops *= 4
